@@ -785,6 +785,10 @@ func (b *BlockWise[C]) processReceivedMessage(w *responsewriter.ResponseWriter[C
 		szx = getSzx(szx, maxSzx)
 		// if there is no more then just forward req to next handler
 		if !more {
+			if num != 0 {
+				// the last block of a transfer we hold no state for (duplicate, stale or replayed block)
+				return fmt.Errorf("received last block(%v) without previous blocks", num)
+			}
 			next(w, r)
 			return nil
 		}
